@@ -177,3 +177,159 @@ class ReductionWrapper(Family):
             else:
                 setattr(symnp.SymNumpy, kind, real)
         ctx.prove("post.axis=None: np.<name> of all elements, as a scalar", z3.BoolVal(out_n == "SCALAR" and len(seen) == 1 and seen[0] is g.D))
+
+
+@register
+class ArgExtremum(Family):
+    """_arg_extremum(ext) with ext an (n, 1) column: result[r] = the FIRST column c of row r with row[c] == ext[r] (numpy ==), and 0 for a
+    row without such a cell (in particular an empty row); argmax / argmin hand it the keepdims row maxima / minima.
+    RaggedArray.nonzero and the column broadcast enter through their proved contracts."""
+    name = "RaggedArray._arg_extremum"
+    qualname = "npstructures.raggedarray:RaggedArray._arg_extremum"
+    serves = ["C05", "C19"]
+    timeout_ms = 30000
+    assumed = ["callee contract RaggedArray.nonzero (proved: RaggedArray.nonzero/contract.*)",
+               "callee contract RaggedArray._broadcast_rows: every cell of row r gets column[r] (proved: RaggedShape.broadcast_values / _raw_broadcast)",
+               "numpy.unique(return_index=True): distinct values increasing, index of the first occurrence (audited)",
+               "numpy fancy assignment (witness form)", "numpy == as an uninterpreted relation on elements"]
+
+    def kinds(self):
+        return ["values", "argmax-dispatch", "argmin-dispatch"]
+
+    def extra_functions(self):
+        return ["RaggedArray.__array_ufunc__", "RaggedArray.argmax", "RaggedArray.argmin"]
+
+    def run(self, ctx, kind):
+        from npstructures import RaggedArray
+        from .scans import stub_broadcast_generic
+        from .structural import contract_ragged_nonzero
+        from ..sym.arr import coerce_term
+        g = sym_ragged(ctx, kind="elem")
+        ctx.ghost["g"] = g
+        n, S, L, D = g.n, g.S, g.L, g.D.fn
+        if kind.endswith("dispatch"):
+            which = kind.split("-")[0]
+            log = []
+            col = SymArr.symbolic("col", n, "elem", np.int64, assume_len=False).reshape(-1, 1)
+            old = {nm: RaggedArray.__dict__[nm] for nm in ("_arg_extremum", "max", "min")}
+            RaggedArray._arg_extremum = lambda self_, e: log.append(("_arg_extremum", self_, e)) or "ARG"
+            RaggedArray.max = lambda self_, **kw: log.append(("max", self_, kw)) or col
+            RaggedArray.min = lambda self_, **kw: log.append(("min", self_, kw)) or col
+            try:
+                out = getattr(g.ra, which)(axis=-1)
+                out_bad = getattr(g.ra, which)(axis=0)
+            finally:
+                for nm, f in old.items():
+                    setattr(RaggedArray, nm, f)
+            want = "max" if which == "argmax" else "min"
+            ok = out == "ARG" and len(log) == 2 and log[0][0] == want and log[0][1] is g.ra and log[0][2] == {"axis": -1, "keepdims": True} and \
+                log[1][0] == "_arg_extremum" and log[1][1] is g.ra and log[1][2] is col
+            ctx.prove(f"post.{which}(axis=-1) = _arg_extremum(self.{want}(axis=-1, keepdims=True))", z3.BoolVal(bool(ok)))
+            ctx.prove("post.other axes refused", z3.BoolVal(out_bad is NotImplemented))
+            return
+        ext1 = SymArr.symbolic("ext", n, "elem", np.int64, assume_len=False)
+        ext = ext1.reshape(-1, 1)
+        X = ext1.fn
+        EQ = lambda x, y: apply_binary("equal", x, y)
+        rec, nzrec = {}, {}
+        cls, old_b = stub_broadcast_generic(ctx, g, rec, "elem")
+
+        def nonzero_stub(self_):
+            c = cur()
+            data = self_.ravel()
+            snap = data.snapshot()
+            M = lambda j: coerce_term(snap(j), "bool")
+            cnt = z3.Int("nzcnt")
+            pos = z3.Function("nzpos", z3.IntSort(), z3.IntSort())
+            rk = z3.Function("nzrk", z3.IntSort(), z3.IntSort())
+            rows = SymArr.symbolic("rows", cnt, "int", np.int64, assume_len=False)
+            cols = SymArr.symbolic("cols", cnt, "int", np.int64, assume_len=False)
+            ground, schemas = contract_ragged_nonzero(g, M, rows.fn, cols.fn, cnt, pos, rk)
+            for f in ground:
+                c.assume(f)
+            for nm, fn, ar in schemas:
+                c.assume_forall(nm, fn, arity=ar)
+            nzrec.update(M=M, cnt=cnt, pos=pos, rk=rk, rows=rows, cols=cols, receiver=self_)
+            return rows, cols
+        old_nz = RaggedArray.__dict__["nonzero"]
+        RaggedArray.nonzero = nonzero_stub
+        try:
+            res = g.ra._arg_extremum(ext)
+        finally:
+            RaggedArray._broadcast_rows = old_b
+            RaggedArray.nonzero = old_nz
+        M, cnt, pos, rk, rows, cols = nzrec["M"], nzrec["cnt"], nzrec["pos"], nzrec["rk"], nzrec["rows"].fn, nzrec["cols"].fn
+        uq = ctx.ghost["uniques"][-1]
+        K, uniq, first, grp = uq["K"], uq["uniq"], uq["first"], uq["grp"]
+        ctx.prove("post.one entry per row", dim_term(res.shape_[0]) == n)
+        ctx.prove("post.nonzero is asked about the comparison of this array's rows with the column", z3.BoolVal(nzrec["receiver"]._shape is g.ra._shape))
+        r, c = z3.Int("r"), z3.Int("c")
+        ctx.skolem(z3.And(0 <= r, r < n, 0 <= c, c < L(r)))
+        j = S(r) + c
+        ctx.prove_then_assume("post.lemma: the mask handed to nonzero is row[c] == ext[r], cell by cell", M(j) == EQ(D(j), X(r)), pool=[r, r + 1, c, j])
+        # (r, c) was an arbitrary cell: universal generalisation
+        ctx.assume_forall("comparison mask, cell by cell (lemma above)", lambda r_, c_: z3.Implies(z3.And(0 <= r_, r_ < n, 0 <= c_, c_ < L(r_)),
+                          M(S(r_) + c_) == EQ(D(S(r_) + c_), X(r_))), arity=2)
+        sc = ctx.ghost["scatters"][-1]
+        # first matching column c of row r
+        ctx.assume(EQ(D(j), X(r)))
+        ctx.assume_forall("c is the first match of row r", lambda c_: z3.Implies(z3.And(0 <= c_, c_ < c), z3.Not(EQ(D(S(r) + c_), X(r)))))
+        t = rk(j)
+        k = grp(t)
+        f = first(k)
+        cf = cols(f)
+        pool = [r, r + 1, c, j, t, k, f, cf, S(r) + cf, pos(f), pos(t), rows(f), rows(f) + 1, rows(t), rows(t) + 1, rk(pos(f)), K, cnt, n, sc["wit"](r)]
+        ctx.prove_then_assume("post.lemma: the match is listed (t = rank of its flat position) and listed in row r", z3.And(0 <= t, t < cnt, pos(t) == j, rows(t) == r, cols(t) == c), pool=pool)
+        ctx.prove_then_assume("post.lemma: row r has a slot k in unique(rows) and its first listed cell f is not after t", z3.And(0 <= k, k < K, uniq(k) == r, 0 <= f, f <= t, rows(f) == r), pool=pool)
+        ctx.prove_then_assume("post.lemma: the first listed cell of row r is a match at a column <= c, hence column c", cf == c, pool=pool + [cf + 1])
+        ctx.prove("post.result[r] == first column of row r equal to ext[r]", res.get(r) == c, pool=pool)
+        # a row without a match (e.g. an empty row)
+        r2 = z3.Int("r2")
+        ctx.skolem(z3.And(0 <= r2, r2 < n))
+        ctx.assume_forall("row r2 has no match", lambda c_: z3.Implies(z3.And(0 <= c_, c_ < L(r2)), z3.Not(EQ(D(S(r2) + c_), X(r2)))))
+        w = sc["wit"](r2)
+        fw = first(w)
+        cw = cols(fw)
+        pool2 = [r2, r2 + 1, w, fw, cw, rows(fw), rows(fw) + 1, pos(fw), S(r2) + cw, K, cnt, n]
+        ctx.prove("post.result[r] == 0 for a row without a cell equal to ext[r]", res.get(r2) == 0, pool=pool2)
+        ctx.prove("post.operand not modified", z3.BoolVal(g.D.buf.writes == 0))
+
+    def late_lemmas(self, ctx, kind, exc):
+        """IndexError paths: the slots of unique(rows) are listed cells (first[k] < cnt) in existing rows (uniq[k] < n)"""
+        if isinstance(exc, IndexError) and ctx.ghost.get("uniques") and ctx.ghost.get("forall_facts"):
+            uq = ctx.ghost["uniques"][-1]
+            w = ctx.ghost["forall_facts"][-1]["w"]
+            f = uq["first"](w)
+            ctx.prove_then_assume("late.lemma: the index bounds check cannot fail", z3.BoolVal(False), kind="lemma",
+                                  pool=[w, f, f + 1, uq["K"], uq["n"], ctx.ghost["g"].n])
+
+    def concretise(self, kind, model, ghost):
+        g = ghost["g"]
+        n = min(max(model_int(model, g.n), 0), 5)
+        return {"lengths": [min(max(model_int(model, g.L(z3.IntVal(r))), 0), 4) for r in range(n)]}
+
+    def concrete(self, case):
+        from npstructures import RaggedArray
+        ls = case["lengths"]
+        rows, v = [], 3
+        for l in ls:
+            rows.append([((v + i) * 7) % 5 - 2 for i in range(l)])
+            v += l
+        ra = RaggedArray(np.array([x for r in rows for x in r], dtype=np.int64), ls)
+        for nm, fn in (("argmax", np.argmax), ("argmin", np.argmin)):
+            try:
+                got = getattr(ra, nm)(axis=-1)
+            except Exception as e:
+                return {"msg": f"{nm} on rows {rows} raised {type(e).__name__}: {e}", "sig": "raised:_arg_extremum"}
+            for r, row in enumerate(rows):
+                exp = int(fn(np.array(row))) if row else 0
+                if int(got[r]) != exp:
+                    return {"msg": f"{nm} on rows {rows}: row {r} gives {got[r]}, numpy {exp}", "sig": "wrong:_arg_extremum"}
+
+    def bounded_cases(self, tier, seed):
+        from ..bounded.common import length_vectors
+        for ls in length_vectors(4, 3):
+            yield {"lengths": ls}
+
+    def nontrivial(self, case):
+        return 0 in case["lengths"]
